@@ -330,3 +330,4 @@ PROP = C12()
 
 PROP.rule += (" Strata added while closing seeded changes (DESIGN section 10): "
               'hyphenated text columns, terse ~Well sections, numeric descriptions, WRAP spellings.')
+PROP.rule += ' Round 8: LAS 1.0 inputs.'
